@@ -1972,7 +1972,7 @@ class SW(TimeVarying):
         active_time = expr(self.args[0])
 
         if before:
-            active = expr(t) < active_time
+            active = expr(t) > active_time
         else:
             active = expr(t) >= active_time
 
